@@ -5,7 +5,7 @@ from .. import gen as G
 from .common import TRUSTED, ASSUMPTIONS, default_nontrivial, LEVEL_NOTE, TECHNIQUE
 
 LEVEL = "proof"
-THEOREMS = []
+THEOREMS = ['C07_comm_simplex', 'C07_comm', 'C07_comm_shared', 'C07_idem_avg', 'C07_idem_wgh', 'C07_vacuous_neutral', 'C07_acm_u_le_min', 'C07_avg_u_between', 'C07_wgh_u_between', 'C07_acm_assoc', 'C07_fold_perm', 'C07_tree_perm', 'C07_fold_grouping', 'C07_fold_assign']
 RULE = ("fuse on operand pairs run in both orders (cross-case: commutativity), self-fusion (idempotence), vacuous partners (neutrality), "
         "uncertainty bounds; fuse_fold on sequences of 2..6 non-dogmatic opinions sharing a base rate under all permutations (<=720, "
         "sampled 24 per sequence in quick) and the right-nested grouping, by value / fuse_assign / OpinionRef rhs; n=2..4; families "
